@@ -3,7 +3,7 @@
    1 = implementation differs from the model but satisfies the oracle; 2/3 = implementation violates
    the property oracle (3: and differs from the model). *)
 From Coq Require Import List NArith Bool.
-From LE Require Import Base.Corr BFT.Contradiction BFT.ForkChoice.
+From LE Require Import Base.Corr BFT.Contradiction BFT.ForkChoice Gen.ForkOrder.
 Import ListNotations.
 Local Open Scope N_scope.
 
@@ -33,3 +33,22 @@ Definition check_fc (o : fc_obs) : N :=
                      is_tie_break c last cur tl tc; is_different_chain last cur] in
   code (forallb (fun p => Bool.eqb (fst p) (snd p)) (combine bits model_bits) && Nat.eqb (length bits) 5)
        (impl_class bits =? case_num (lip14_case c last cur tl tc)).
+
+(* search for a concrete misclassification: the dispatch order regenerated from Executer.process, applied to the
+   implementation's own predicate answers, against the LIP-0014 case list *)
+Definition impl_holds (bits : list bool) (k : fc_case) : bool :=
+  match bits, k with
+  | [v; i; d; t; x], Identical => i
+  | [v; i; d; t; x], ValidBlock => v
+  | [v; i; d; t; x], DoubleForging => d
+  | [v; i; d; t; x], TieBreak => t
+  | [v; i; d; t; x], DifferentChain => x
+  | _, _ => true
+  end.
+Fixpoint impl_dispatch (order : list fc_case) (bits : list bool) : fc_case :=
+  match order with [] => Discard | k :: rest => if impl_holds bits k then k else impl_dispatch rest bits end.
+Definition check_dispatch (o : fc_obs) : N :=
+  let '(c, last, cur, tl, tc, bits) := o in
+  let order := map fst process_branches in
+  code (case_num (dispatch order c last cur tl tc) =? case_num (classify c last cur tl tc))
+       (case_num (impl_dispatch order bits) =? case_num (lip14_case c last cur tl tc)).
